@@ -819,6 +819,7 @@ pub fn run(tier: &str, seed: u64) -> Report {
                     model_out: String::new(),
                 });
             }
+            crate::hist::fresh_cache_twin(rep, w, &op, &ans, || format!("{}\n{line}", lines.join("\n")));
             lines.push(line);
             cmds.push(cmd);
             impl_outs.push(ans.clone());
@@ -872,9 +873,10 @@ pub fn run(tier: &str, seed: u64) -> Report {
             let got = ans.split(' ').next().unwrap_or("").trim_start_matches("items=").to_string();
             if got != want.join(",") {
                 rep.add_finding(Finding {
-                    props: vec!["C03".into()],
+                    // a function without a RUNTIME_FUNCTION entry is a leaf by the PE convention (C04)
+                    props: if inner.leaf_without_entry { vec!["C03".into(), "C04".into()] } else { vec!["C03".into()] },
                     kind: "oracle".into(),
-                    key: "pe-walk-differs-from-true-chain".into(),
+                    key: if inner.leaf_without_entry { "pe-leaf-without-entry-walk-differs-from-true-chain".into() } else { "pe-walk-differs-from-true-chain".into() },
                     what: format!("the true call chain is {}", want.join(",")),
                     case: lines.join("\n"),
                     impl_out: got.clone(),
